@@ -514,6 +514,25 @@ pub fn gen_cfgrun(seed: u64, n: usize) -> Vec<Scenario> {
         sc.net.hop_delay_us = 1_000;
         sc.max_rounds = rng.random_range(2..=3);
         sc.max_recv_calls = 200_000;
+        if rng.random_range(0..8) == 0 {
+            // short rounds against a long connect timeout and a target that never answers: TCP sockets of
+            // many rounds are pending at the same time
+            sc.proto = "tcp".into();
+            sc.ports = (*pick(&mut rng, &["src", "dest"])).into();
+            sc.strat = "classic".into();
+            sc.first_ttl = 1;
+            sc.max_ttl = *pick(&mut rng, &[8, 64]);
+            sc.max_inflight = 24;
+            sc.init_seq = 33434;
+            sc.min_round_us = *pick(&mut rng, &[0, 10_000]);
+            sc.max_round_us = *pick(&mut rng, &[10_000, 20_000]);
+            sc.grace_us = 1_000;
+            sc.read_timeout_us = 1_000;
+            sc.tcp_timeout_us = *pick(&mut rng, &[1_000_000, 5_000_000]);
+            sc.max_rounds = *pick(&mut rng, &[20, 40]);
+            sc.topo.paths[0].target_silent = true;
+            sc.max_recv_calls = 2_000_000;
+        }
         out.push(sc);
     }
     out
